@@ -116,10 +116,21 @@ class Tokenizer:
             if m.group(0) == '\\\\':
                 return m.group(0)
             num = int(m.group(0)[1:], 16)
+            if num == 0x5C:
+                # a backslash stays an escaped one: as a bare character it
+                # would escape whatever follows it
+                return '\\\\'
             if num <= sys.maxunicode:
                 return chr(num)
             else:
                 return m.group(0)
+
+        def _repl_comment(m):
+            "used by unicodesub for COMMENT: only what no encoding needs stays"
+            if m.group(0) == '\\\\' or int(m.group(0)[1:], 16) < 0x80:
+                # (resolving e.g. ``\2a/`` would end the comment early)
+                return m.group(0)
+            return _repl(m)
 
         def _normalize(value):
             "normalize and do unicodesub"
@@ -224,7 +235,9 @@ class Tokenizer:
                                 # remove \ followed by nl (so escaped) from string
                                 # (before a new line could stem from an escape)
                                 value = self.cleanstring('', value)
-                            value = self.unicodesub(_repl, value)
+                            value = self.unicodesub(
+                                _repl_comment if name == 'COMMENT' else _repl, value
+                            )
 
                         else:
                             if 'ATKEYWORD' == name:
